@@ -212,6 +212,8 @@ def run(ctx):
         r.ok(rule2, 'summary', 'field decoder types equal the declared field types in %d decoder instances' % n2)
     r.floor(rule2, 'decoder_instances_checked', n2, 150)
     mask_agreement(ctx)
+    tag_agreement(ctx)
+    r.floor('tag-agreement', 'tag_layouts', r.counts.get('tag_layouts', 0), 12)
     r.floor('mask-agreement', 'mask_combinations', r.counts.get('mask_combinations', 0), 192)
     # (c) Variant::decode: the empty-array path looks at the dimensions bit
     rule3 = 'variant-dimensions-bit'
@@ -374,3 +376,119 @@ def mask_agreement(ctx, rule='mask-agreement'):
             r.fail(rule, short, 'mask-driven codec of %s disagrees: %s (the stream desynchronises for such a value)' % (short, bad), loc=enc.loc)
         else:
             r.ok(rule, short, '%s: for all %d presence combinations of %d optional fields, encode/decode agree on the wire type sequence and byte_len on the fields' % (short, combos, len(fields)), loc=enc.loc)
+
+
+# ------------------------------------------------------------------ (e) tag-driven codecs (NodeId, ExpandedNodeId)
+TAGGED = ['types::node_id::NodeId', 'types::expanded_node_id::ExpandedNodeId']
+
+
+def _has_place(sym, local):
+    if isinstance(sym, tuple) and sym:
+        if sym[0] == 'place' and sym[1] == local and not sym[2]:
+            return True
+        return any(_has_place(x, local) for x in sym if isinstance(x, tuple))
+    return False
+
+
+def tag_agreement(ctx, rule='tag-agreement'):
+    """NodeId / ExpandedNodeId: the first byte selects one of several layouts. For every layout the encoder writes (tag
+    constant K, then a sequence of wire types) the decoder's arm for K must read the same sequence. ExpandedNodeId also
+    carries two flag bits in the same byte: every tag write must include the flags variable, the flag constants set by
+    the encoder must be the ones the decoder tests, and the optional parts are written / read under the same flag."""
+    r, db = ctx.r, ctx.db
+    narms = 0
+    for ty in TAGGED:
+        short = ty.rsplit('::', 1)[-1]
+        enc = db.find_bodies(r'^<%s as types::encoding::BinaryEncoder<%s>>::encode$' % (re.escape(ty), re.escape(ty)))
+        dec = db.find_bodies(r'^<%s as types::encoding::BinaryEncoder<%s>>::decode$' % (re.escape(ty), re.escape(ty)))
+        if not enc or not dec:
+            r.lost(rule, short, 'encode / decode of %s not found' % short); continue
+        enc, dec = enc[0], dec[0]
+        Fe, Fd = ctx.facts(enc), ctx.facts(dec)
+        eorder = {b_: i for i, b_ in enumerate(rpo(enc))}
+        dorder = {b_: i for i, b_ in enumerate(rpo(dec))}
+        def is_write(c):
+            return (WIRE_FN.match(c.callee) and '::write_' in c.callee) or c.callee.endswith('BinaryEncoder::encode')
+        def is_read(c):
+            return (WIRE_FN.match(c.callee) and '::read_' in c.callee) or c.callee.endswith('BinaryEncoder::decode')
+        writes = sorted([c for c in enc.calls() if is_write(c) and c.bb in eorder], key=lambda c: eorder[c.bb])
+        reads = sorted([c for c in dec.calls() if is_read(c) and c.bb in dorder], key=lambda c: dorder[c.bb])
+        # tag writes: write_u8 not dominated by another write
+        tags = []
+        for c in writes:
+            if c.callee.endswith('write_u8') and not any(o is not c and enc.dominates(o.bb, c.bb) for o in writes):
+                v = Fe.sym_operand(c.args[1])
+                k = None; flags_local = None
+                if Fe.const_int(v) is not None:
+                    k = Fe.const_int(v)
+                elif v[0] == 'place' and not v[2]:
+                    k = 0; flags_local = v[1]
+                elif v[0] == 'bin' and v[1] == 'BitOr':
+                    for a, b_ in ((v[2], v[3]), (v[3], v[2])):
+                        if Fe.const_int(b_) is not None and a[0] == 'place' and not a[2]:
+                            k = Fe.const_int(b_); flags_local = a[1]
+                tags.append((c, k, flags_local, v))
+        # decoder arms
+        sw = None
+        for bi, blk in enumerate(dec.blocks):
+            t = blk['t']
+            if t[0] == 'switch' and t[2] == 'u8' and len(t[3]) >= 3:
+                sw = bi; break
+        if sw is None or len(tags) < 3:
+            r.lost(rule, short + ':shape', 'tag writes (%d) / decoder tag switch not recognised' % len(tags)); continue
+        arms = {int(v): d for v, d in dec.term(sw)[3]}
+        probs = []
+        for c, k, fl, v in tags:
+            narms += 1
+            if k is None:
+                probs.append('tag byte %s is not a layout constant' % fmt_sym(enc, v)[:40]); continue
+            eseq = [_wire_type(o) for o in writes if o is not c and enc.dominates(c.bb, o.bb)]
+            if k not in arms:
+                probs.append('layout %d is written but the decoder has no arm for it' % k); continue
+            dseq = [_wire_type(o) for o in reads if dec.dominates(arms[k], o.bb)]
+            if eseq != dseq:
+                probs.append('layout %d: encode writes [%s] after the tag, decode reads [%s]' % (k, ', '.join(x.rsplit('::', 1)[-1] for x in eseq), ', '.join(x.rsplit('::', 1)[-1] for x in dseq)))
+        # flags
+        dflags = {}
+        for bi, blk in enumerate(dec.blocks):
+            t = blk['t']
+            if t[0] == 'switch':
+                e = Fd.sym_operand(t[1])
+                if e[0] == 'bin' and e[1] == 'Ne' and e[2][0] == 'bin' and e[2][1] == 'BitAnd' and Fd.const_int(e[2][3]) is not None:
+                    cst = Fd.const_int(e[2][3])
+                    tgt = [d for v, d in t[3]]
+                    taken = [s_ for s_ in dec.succ(bi) if s_ not in tgt]   # the `!= 0` edge is the otherwise edge of `switch [0 -> ..]`
+                    if taken:
+                        dflags[cst] = [_wire_type(o) for o in reads if dec.dominates(taken[0], o.bb)][:1]
+        if dflags:
+            locals_ = {fl for c, k, fl, v in tags}
+            if None in locals_ or len(locals_) != 1:
+                bad = [k for c, k, fl, v in tags if fl is None]
+                probs.append('the tag byte of layout(s) %s does not carry the flags variable: the decoder will not look for the optional parts' % bad)
+            else:
+                L = locals_.pop()
+                eflags = {}
+                for d in enc.defs().get(L, []):
+                    if d[0] == 'stmt' and d[3][0] == 'bin' and d[3][1] == 'BitOr':
+                        cst = Fe.const_int(Fe.sym_operand(d[3][3]))
+                        conds = sorted(stable(enc, l) for l, e in Fe.literals_at(d[1], d[2]) if l[0] != 'try' and 'Try::branch' not in fmt_lit(enc, l))
+                        eflags[cst] = conds
+                if set(eflags) != set(dflags):
+                    probs.append('the encoder sets flag bits %s, the decoder tests %s' % (sorted(eflags), sorted(dflags)))
+                for cst, conds in eflags.items():
+                    # the optional part written under the same condition
+                    wr = [o for o in writes if sorted(stable(enc, l) for l, e in Fe.literals_at(o.bb) if l[0] != 'try' and 'Try::branch' not in fmt_lit(enc, l) and 'succeeded' not in fmt_lit(enc, l)) == conds
+                          and not any(enc.dominates(c.bb, o.bb) for c, _, _, _ in tags)]
+                    wt = [_wire_type(o) for o in wr]
+                    if wt[:1] != dflags.get(cst, [None])[:1]:
+                        probs.append('flag 0x%x: encode writes %s under the flag condition, decode reads %s' % (cst, wt[:1], dflags.get(cst)))
+        if probs:
+            r.fail(rule, short, 'tag-driven codec of %s disagrees: %s' % (short, '; '.join(probs[:3])), loc=enc.loc)
+        else:
+            r.ok(rule, short, '%s: %d layouts, each read back with the sequence it was written with%s' % (short, len(tags), '; flag bits and optional parts agree' if dflags else ''), loc=enc.loc)
+    r.count('tag_layouts', narms)
+
+
+def stable(body, lit):
+    s = fmt_lit(body, lit)
+    return re.sub(r'\(_\d+\)', '', s)
